@@ -19,7 +19,7 @@ BUDGET = {"quick": {"runs": 8000, "wall": 80}, "thorough": {"runs": 60000, "wall
 SHRINK_LISTS = ("ops",)
 PROBES = {"C14": ["second-solve", "solve-at-stale-clock", "solve-after-jump", "solve-after-syscall", "ltv", "lti",
                   "ns=1", "batch>1", "T=1", "u:none", "u:zeros", "u:random", "u:prev", "u:prev-shifted-in-place", "x_init:non-contiguous", "x_init:expanded", "two-lqr-share-system",
-                  "mpc-linear", "mpc-nonlinear", "nls-time-dependent", "mpc-nonmonotone", "unstable-A", "cond>1e4"]}
+                  "mpc-linear", "mpc-nonlinear", "nls-time-dependent", "mpc-nonmonotone", "unstable-A", "cond>1e4", "system:deepcopied"]}
 import os
 TS = float(os.environ.get("PPSIM_TOLSCALE", "1"))
 TOL_FEAS = 1e-11 * TS       # relative
@@ -40,7 +40,7 @@ def generate(seed, tier, prop="C14"):
     cfg = {"kind": kind, "ns": ns, "nc": nc, "T": T, "B": B, "N": T + r.choice([0, 0, 1, 3]),
            "rho": r.choice([0.5, 0.9, 1.0, 1.3]), "logcond": r.choice([0, 1, 2, 4, 6]), "c1": r.random() < 0.7,
            "Qtv": r.random() < 0.5, "two": r.random() < 0.25, "h": r.choice([0.2, 0.2, 1.0, 2.5]),
-           "a": r.choice([0.0, 0.0, 0.5, 0.9])}
+           "a": r.choice([0.0, 0.0, 0.5, 0.9]), "deepcopy_sys": r.random() < 0.2}
     ro = rng.stream(seed, "ops")
     ops = []
     n = ro.randint(1, 8 if tier == "thorough" else 6)
@@ -51,6 +51,8 @@ def generate(seed, tier, prop="C14"):
                  "u": ro.choice(["none", "zeros", "random", "prev", "prev-shifted-in-place"])}
             if kind == "NLS" or (B == 1 and ro.random() < 0.15):      # MPC: single batch, as documented
                 o["op"] = "mpc"
+        elif x < 0.62 and kind in ("LTI", "LTV"):
+            o = {"id": i, "op": "model-update"}
         elif x < 0.7:
             o = {"id": i, "op": "syscall", "k": ro.randint(1, 3)}
         elif x < 0.85:
@@ -144,6 +146,15 @@ def execute(plan, prop, out, tr):
             sysm = StackedLTV(A, Bm, C, D, c1, None, N); out.probe("ltv")
         if c["rho"] > 1:
             out.probe("unstable-A")
+    if c.get("deepcopy_sys"):
+        # the solver works on a snapshot of the system object (a copy made after the original has been used once)
+        import copy as _copy
+        if kind != "NLS":
+            sysm(rng.randn(s, ("warm-x",), (B, ns), dt), rng.randn(s, ("warm-u",), (B, nc), dt))
+        sysm = _copy.deepcopy(sysm)
+        out.probe("system:deepcopied")
+    if kind != "NLS":
+        A, Bm, c1 = sysm._A, sysm._B, sysm._c1      # the live buffers of the system the solvers will use
     if ns == 1:
         out.probe("ns=1")
     if B > 1:
@@ -192,6 +203,14 @@ def execute(plan, prop, out, tr):
                 sysm(rng.randn(s, ("sx", i, k), (B, ns) if kind != "NLS" else (1, ns), dt),
                      rng.randn(s, ("su", i, k), (B, nc) if kind != "NLS" else (1, nc), dt))
             dirty = "syscall"; out.fault("interleaved-system-call", o["k"]); out.ops += 1
+            continue
+        if op == "model-update":
+            # system identification between solves: the model's matrices are refreshed in place
+            if kind in ("LTI", "LTV"):
+                with torch.no_grad():
+                    A.mul_(0.9).add_(0.1 * rng.randn(s, ("updA", i), tuple(A.shape), dt))
+                    Bm.add_(0.3 * rng.randn(s, ("updB", i), tuple(Bm.shape), dt))
+                out.fault("model-updated-in-place"); out.ops += 1
             continue
         if op == "reset":
             sysm.reset(o["t"]); dirty = "jump"; out.fault("clock-jump"); out.ops += 1
